@@ -196,6 +196,7 @@ func (x rtype) eq(_ types.Type, y interface{}) bool {
 // In a well-typed program, the dynamic types of x and y are
 // guaranteed equal.
 func equals(t types.Type, x, y value) bool {
+	x, y = forceDeep(x), forceDeep(y)
 	if hasSym(x) || hasSym(y) {
 		return ex.branch(eqTerm(t, x, y))
 	}
@@ -261,6 +262,7 @@ func equalsConcrete(t types.Type, x, y value) bool {
 // Returns an integer hash of x such that equals(x, y) => hash(x) == hash(y).
 // The outer type is used only for the "unhashable" panic message.
 func hash(outer, t types.Type, x value) int {
+	x = forceDeep(x)
 	switch x := x.(type) {
 	case bool:
 		if x {
